@@ -42,7 +42,19 @@ MODELLED = [
 ]
 ASSUMPTIONS = ["parameters in their declared domain; eta1 > 1 for the exponential HEM model",
                "direct route: the jump law simulated by jump_increment is the density nu (C02/C09)"]
-THEOREM_NOTES = {}
+THEOREM_NOTES = {
+    "C10_conversions_*": "complete: every measure (through its first-moment function m1 and finite-variation flag), every triplet, every "
+        "sequence of representation changes; exact over R (the floats add rounding of a few ulps, bounded in the case lemmas)",
+    "C10_hem_exponent": "the Levy-Khintchine clause is proved for HEM only (whole strip -eta2 < s < eta1, real axis); Merton / VG / CGMY: "
+        "quadrature oracle only (needs the Gaussian, Frullani and Gamma integrals)",
+    "C10_cumulants_*": "cumulant1 and cumulant2 as first/second derivative of kappa at 0 for HEM, Merton, VG; CGMY partial (cumulant1 in every "
+        "branch, cumulant2 for y not in {0,1} given the functional equation of Gamma); cumulant4/6 by the Cauchy-integral oracle only",
+    "C10_martingale_direct_*": "algebra on the generated drifts; that E exp(jumps) = exp(T pj(1)) is the LK clause (proved for HEM, "
+        "oracle for Merton)",
+    "C10_martingale_ctmc": "algebra: given additivity of the first moment at 0 and H_rep, the chain drift with the exact jump law grows at r-d; "
+        "H_rep discharged for ZERO-declared models by C10_Hrep_zero_declared (+ C10_hem_exponent for HEM)",
+    "complex arguments of levy_exponent": "not modelled; oracle compares levy_exponent(u) at real u with the complex LK quadrature",
+}
 
 QUICK = dict(n_random=2, coq_per_group=4, seqs=40)
 THOROUGH = dict(n_random=12, coq_per_group=40, seqs=400)
@@ -474,6 +486,16 @@ def correspond(res):
     _coq(res, random.Random(res.seed + 1))
 
 
+def search(res):
+    saved = dict(QUICK)
+    QUICK.update(n_random=8)
+    try:
+        _oracle(res, random.Random(res.seed + 7))
+    finally:
+        QUICK.clear()
+        QUICK.update(saved)
+
+
 def replay(path):
     import warnings
     warnings.filterwarnings("ignore")
@@ -518,6 +540,14 @@ def replay(path):
     return 1
 
 
-LEVEL_TEXT = ""
-LEVEL_NOTE = ""
+LEVEL_TEXT = ("Proof (partial): 16 Coq theorems. The four drift conversions of LevyTriplet are re-translated from levymodel.py on every run and "
+              "set_representation is proved path-independent and reversible for all triplets, measures and sequences of representations. "
+              "On the real axis (kappa(s) = psi(-i s)) the generated pure-jump exponents, cumulants and simulation drifts of HEM, Merton, VG, "
+              "CGMY and Black-Scholes satisfy: cumulant1/2 = t * first/second derivative of kappa at 0 (CGMY partially), the characteristic-"
+              "function route and the direct-simulation drift (BS, Merton, HEM) give the forward S0 exp((r-d)T), the Markov-chain drift does "
+              "so given additivity of the first moment and the Levy-Khintchine clause, and for HEM the exponent is proved to be the "
+              "Levy-Khintchine integral of the generated density in the declared representation. For Merton, VG and CGMY the exponent-versus-"
+              "density clause, higher cumulants and complex arguments are validated only by the mpmath quadrature / Cauchy-integral oracle.")
+LEVEL_NOTE = ("Trusted: Coq kernel, standard real/classical axioms, py2coq (fail-closed), the hand model of levy_exponent on the real axis "
+              "(complex arithmetic not modelled) tied by interval case lemmas on levy_exponent(-1j*s).real, Gamma as an opaque function.")
 TECHNIQUE = "Coq proof over R (field algebra, Coquelicot is_derive / auto_derive) on py2coq-generated drifts, exponents and cumulants + Interval case lemmas"
